@@ -177,6 +177,10 @@ func fragNeg(g *Gen, n int, o *Out) {
 				a.Raw = []string{"/etc", "/a", "/usr/bin", "/1", "a", "x y", ""}[g.r.Intn(7)]
 				b.Raw = a.Raw
 				a.ForceDouble, b.ForceDouble = true, true
+				// a datum that holds the literal (and its slash-less form)
+				datum = map[string]interface{}{"Paths": []string{a.Raw, "x"}, "P2": []interface{}{strings.TrimPrefix(a.Raw, "/")}, "S": a.Raw + "!"}
+				a.Path = [][]string{{"Paths"}, {"P2"}, {"S"}}[g.r.Intn(3)]
+				b.Path = a.Path
 			}
 			a.Contains, b.Contains = true, false
 			ra, _, oka := evalG(g, o, opts, a, datum)
@@ -604,8 +608,47 @@ func (g *Gen) perturbHidden(v reflect.Value, tag string, changed *bool) reflect.
 	return out
 }
 
+// hiddenThroughQuantifier: the tag name governs lookups inside quantifier bodies too.
+func hiddenThroughQuantifier(g *Gen, o *Out) {
+	for _, tag := range []string{"json", "bexpr"} {
+		var opts []OptSpec
+		if tag != "bexpr" {
+			opts = []OptSpec{{Kind: "tag", Tag: tag}}
+		}
+		mk := func(secret string) interface{} {
+			return map[string]interface{}{"L": []HiddenHolder{{Vis: 1, Secret: secret, AltSec: secret, Tagged: "t"}}, "M": map[string]HiddenHolder{"k": {Vis: 2, Secret: secret, AltSec: secret, Tagged: "t"}}}
+		}
+		d1, d2 := mk("s3cr3t"), mk("other")
+		hiddenName := map[string]string{"json": "AltSec", "bexpr": "Secret"}[tag]
+		tagName := map[string]string{"json": "jvis2", "bexpr": "vis2"}[tag]
+		for _, coll := range []string{"L", "M"} {
+			mode, def, val := "default", "u", ""
+			if coll == "M" {
+				mode, def, val = "value", "", "u"
+			}
+			for _, e := range []GExpr{
+				GColl{Op: "any", Path: []string{coll}, Mode: mode, Def: def, Val: val, Inner: GMatch{Path: []string{"u", hiddenName}, Op: "eq", Raw: "s3cr3t", LitStyle: 2}},
+				GColl{Op: "any", Path: []string{coll}, Mode: mode, Def: def, Val: val, Inner: GMatch{Path: []string{"u", tagName}, Op: "eq", Raw: "t", LitStyle: 2}},
+				GColl{Op: "any", Path: []string{coll}, Mode: mode, Def: def, Val: val, Inner: GMatch{Path: []string{"u", "Tagged"}, Op: "eq", Raw: "t", LitStyle: 2}},
+				GColl{Op: "all", Path: []string{coll}, Mode: mode, Def: def, Val: val, Inner: GColl{Op: "any", Path: []string{coll}, Mode: mode, Def: "w", Val: map[string]string{"L": "", "M": "w"}[coll], Inner: GMatch{Path: []string{"w", hiddenName}, Op: "ne", Raw: "x", LitStyle: 2}}},
+			} {
+				text, _, ok := g.renderTop(e)
+				if !ok {
+					continue
+				}
+				r1 := evalText(o, opts, text, d1)
+				r2 := evalText(o, opts, text, d2)
+				if r1 != r2 {
+					o.finding(Finding{Property: "C08", Kind: "failing-input", What: fmt.Sprintf("hidden field observable through a quantifier under tag %s: %s vs %s", tag, r1, r2), Request: lastReq(o), Detail: text})
+				}
+			}
+		}
+	}
+}
+
 func fragHidden(g *Gen, n int, o *Out) {
 	optionSliceNotRetained(o)
+	hiddenThroughQuantifier(g, o)
 	tags := []string{"bexpr", "json"}
 	for i := 0; i < n; i++ {
 		tag := tags[g.r.Intn(2)]
@@ -889,7 +932,50 @@ func tf(b bool) string {
 	return "F"
 }
 
+// refEqualJSONNumber: a json.Number is an int64 if it reads as one (exactly, base 10), else a
+// float64, else the comparison is an error.
+func refEqualJSONNumber(num string, lit string) string {
+	if x, err := strconv.ParseInt(num, 10, 64); err == nil {
+		y, err := strconv.ParseInt(lit, 0, 64)
+		if err != nil {
+			return "E"
+		}
+		return tf(x == y)
+	}
+	if x, err := strconv.ParseFloat(num, 64); err == nil {
+		y, err := strconv.ParseFloat(lit, 64)
+		if err != nil {
+			return "E"
+		}
+		return tf(x == y)
+	}
+	return "E"
+}
+
 func fragScalarEq(g *Gen, n int, o *Out) {
+	// json.Number: integers are compared exactly (also above 2^53), everything else as float64
+	nums := []string{"0", "7", "-1", "9007199254740992", "9007199254740993", "-9007199254740993", "9223372036854775807", "-9223372036854775808",
+		"1234567890123456789", "9223372036854775808", "1.5", "1e3", "0.1", "1e400", "abc", "", "1.0", "100"}
+	for _, num := range nums {
+		lits := []string{num, "9007199254740992", "9007199254740993", "9007199254740994", "1234567890123456788", "1234567890123456789", "1000", "1.5", "0x10", "7", "abc", ""}
+		if x, err := strconv.ParseInt(num, 10, 64); err == nil {
+			lits = append(lits, strconv.FormatInt(x-1, 10), "0x"+strconv.FormatInt(x, 16))
+		}
+		for _, lit := range lits {
+			for _, d := range []interface{}{map[string]interface{}{"x": jsonNumber(num)}, map[string]jsonNumber{"x": jsonNumber(num)}} {
+				m := GMatch{Path: []string{"x"}, Op: "eq", Raw: lit, LitStyle: 2}
+				r, text, ok := evalG(g, o, nil, m, d)
+				if !ok {
+					continue
+				}
+				want := refEqualJSONNumber(num, lit)
+				o.count("eq:json.Number:" + want)
+				if norm(r) != want {
+					o.finding(Finding{Property: "C02", Kind: "failing-input", What: fmt.Sprintf("json.Number(%q) == %q gives %s, reference says %s", num, lit, r, want), Request: lastReq(o), Detail: text})
+				}
+			}
+		}
+	}
 	for i := 0; i < n; i++ {
 		t := scalarTypes[g.r.Intn(len(scalarTypes))]
 		if t == reflect.TypeOf(jsonNumber("")) {
